@@ -64,6 +64,8 @@ type Stream struct {
 	closedW     bool
 	closedR     bool
 
+	// Delivered counts the bytes the scheduler delivered to this endpoint.
+	Delivered int
 	// Wrote is everything this endpoint wrote, in order (oracle use).
 	Wrote [][]byte
 	// ResetBy: "" | "local" | "remote" | "sim"
@@ -235,6 +237,27 @@ func (s *Stream) IsOpen() bool {
 	return !s.reset && !(s.closedW && s.closedR)
 }
 
+// NextChunkLen is the size of the next in-flight chunk (0 if none).
+func (s *Stream) NextChunkLen() int {
+	s.f.mu.Lock()
+	defer s.f.mu.Unlock()
+	if len(s.inflight) == 0 {
+		return 0
+	}
+	return len(s.inflight[0])
+}
+
+// WroteBytes returns the concatenation of everything this endpoint wrote.
+func (s *Stream) WroteBytes() []byte {
+	s.f.mu.Lock()
+	defer s.f.mu.Unlock()
+	var out []byte
+	for _, c := range s.Wrote {
+		out = append(out, c...)
+	}
+	return out
+}
+
 // Pending returns the number of chunks (and whether an EOF) in flight towards
 // this endpoint.
 func (s *Stream) Pending() (int, bool) {
@@ -253,9 +276,11 @@ func (s *Stream) Deliver(n int) {
 		if n > 0 && n < len(c) {
 			s.buf = append(s.buf, c[:n]...)
 			s.inflight[0] = c[n:]
+			s.Delivered += n
 		} else {
 			s.buf = append(s.buf, c...)
 			s.inflight = s.inflight[1:]
+			s.Delivered += len(c)
 		}
 	} else if s.eofInflight {
 		s.eof = true
@@ -317,7 +342,7 @@ func (f *Fabric) OpenCount(local peer.ID, dir network.Direction) int {
 // or nil for a scripted endpoint (the listener end is handed to onScripted).
 func (f *Fabric) StreamOpener(resolve func(p peer.ID) *Host, onScripted func(dialer *Host, listenerEnd *Stream)) func(ctx context.Context, h *Host, p peer.ID, pids []protocol.ID) (network.Stream, error) {
 	return func(ctx context.Context, h *Host, p peer.ID, pids []protocol.ID) (network.Stream, error) {
-		out, cerr := h.S.Park("open", h.Label+h.Name(h.ID())+">"+h.Name(p), ctx, p)
+		out, cerr := h.S.Park("open", h.Label+h.Name(h.ID())+">"+h.Name(p)+sim.TagOf(ctx), ctx, p)
 		if cerr != nil {
 			return nil, cerr
 		}
